@@ -78,13 +78,20 @@ def run(ctx):
                 cell.record("v")
                 if use_hh:
                     cell.select(nodes=[n - 1]).record("HH_m")
-                keys = ["radius", "length", "axial_resistivity", "capacitance", "v"] + (["HH_gNa", "HH_eK", "HH_m"] if use_hh else ["Leak_gLeak", "Leak_eLeak"])
+                keys = ["radius", "length", "axial_resistivity", "capacitance", "v"] + (["HH_gNa", "HH_eK", "HH_m", "HH_n"] if use_hh else ["Leak_gLeak", "Leak_eLeak"])
                 chosen = rng.sample(keys, 3)
                 if use_hh:
                     # the initial voltage of the compartment that sits on the singular voltage is
                     # differentiated: the cotangent passes through BOTH branches of the guard
                     cell.select(nodes=[0]).make_trainable("v")
                     chosen = [k for k in chosen if k != "v"]
+                    if nb >= 2 and len(set(counts)) > 1:
+                        # an initial STATE shared per branch over branches of unequal size (the smaller
+                        # groups are padded by repeating an index: every cotangent must count once)
+                        b_small = min(range(nb), key=lambda b: counts[b])
+                        b_big = max(range(nb), key=lambda b: counts[b])
+                        cell.branch(sorted([b_small, b_big])).make_trainable("HH_n")
+                        chosen = [k for k in chosen if k != "HH_n"]
                 for key in chosen:
                     how = rng.choice(["all", "branches", "comp"])
                     if how == "all":
@@ -105,7 +112,7 @@ def run(ctx):
                 with quiet():
                     out = jx.integrate(cell, p, delta_t=0.025, solver=solver, voltage_solver=backend, checkpoint_lengths=cl)
                 return jnp.sum((out[:, 1:] * 1e-2 - target) ** 2)
-            g = fd_check(loss, params, case)
+            g = fd_check(loss, params, case, nprobe=8)
             if len(samples) < 2:
                 samples.append(dict(case, grad=[np.asarray(x).tolist() for x in jax.tree_util.tree_leaves(g)][:3]))
             gl = np.concatenate([np.asarray(x).reshape(-1) for x in jax.tree_util.tree_leaves(g)])
@@ -188,7 +195,7 @@ def run(ctx):
     for v in viol:
         v.setdefault("finding_class", None)
     return {"evaluations": evals, "distinct_nontrivial": len(distinct),
-            "rule": "random branched cells (HH with a compartment at the singular voltage -40 mV, or Leak), stimulus, 3 trainable keys out of {radius, length, axial_resistivity, capacitance, v, channel parameters, gate states} on whole-module / shared unequal branch groups / single compartments, random (solver, backend): jax.grad of a quadratic loss vs central finite differences (h swept 1e-4..1e-6, float64) on random entries; the same gradient on the other backends and under checkpoint_lengths; gradients w.r.t. data_stimulate amplitudes and data_set values; synapse parameters / states in a network with interleaved types; distinct by (model, keys, solver, backend)",
+            "rule": "random branched cells (HH with a compartment at the singular voltage -40 mV, or Leak), stimulus, 3 trainable keys out of {radius, length, axial_resistivity, capacitance, v, channel parameters, gate states} on whole-module / shared unequal branch groups (incl. a gate state shared per branch over branches of unequal size) / single compartments, random (solver, backend): jax.grad of a quadratic loss vs central finite differences (h swept 1e-4..1e-6, float64) on random entries; the same gradient on the other backends and under checkpoint_lengths; gradients w.r.t. data_stimulate amplitudes and data_set values; synapse parameters / states in a network with interleaved types; distinct by (model, keys, solver, backend)",
             "samples": samples, "violations": viol[:20]}
 
 
